@@ -59,7 +59,7 @@ def server():
                 log.append(('call', tag, message))
 
         def reply(self):
-            return 'ACK<%s><%s>' % (self.tag, _token(self.incoming_message))
+            return 'ACK<%s><%s>' % (self.tag, _token(self.incoming_message)) + _padding(self.incoming_message)
 
     class EH(AbstractErrorHandler):
         def __init__(self, exc, message):
@@ -86,6 +86,14 @@ def server():
     th.start()
     _SRV.update(srv=srv, log=log, lock=lock, port=srv.server_address[1])
     return _SRV
+
+
+BIG = 6 * 1000 * 1000
+
+
+def _padding(text):
+    """a message that asks for it gets a reply of several megabytes (more than the socket buffers hold)"""
+    return 'x' * BIG if 'BIGREPLY' in text else ''
 
 
 def _token(text):
@@ -124,7 +132,7 @@ def send_chunks(port, chunks, pause, close_early=False, stall=0.0, read_timeout=
             return got, 'closed-by-client'
         while True:
             try:
-                b = s.recv(4096)
+                b = s.recv(1 << 16)
             except socket.timeout:
                 how = 'timeout'
                 break
@@ -243,13 +251,14 @@ def run_clients(clients, pause):
             out.append(('C16-wrong-handler:%s' % c['kind'], 'uid %s: invoked %r, expected %r' % (uid, e[:2], want)))
         if e[2] not in (text, text + '\r'):
             out.append(('C16-handler-received-altered-text', 'sent %r, handler got %r' % (text[:200], e[2][:200])))
-        exp_reply = ('ACK<%s><%s>' % (want[1], _token(text))) if want[0] == 'call' else ('ERR<%s><%s>' % (want[1], _token(text)))
+        exp_reply = ('ACK<%s><%s>' % (want[1], _token(text)) + _padding(text)) if want[0] == 'call' else ('ERR<%s><%s>' % (want[1], _token(text)))
         try:
             reply = got.decode('utf-8')
         except Exception:
             reply = repr(got)
         if reply != exp_reply:
-            out.append(('C16-wrong-reply:%s' % c['kind'], 'uid %s cuts %r: received %r, expected %r' % (uid, c.get('cuts'), reply[:120], exp_reply)))
+            out.append(('C16-wrong-reply:%s%s' % (c['kind'], ':big' if _padding(text) else ''), 'uid %s cuts %r: received %r (%d characters), expected %r (%d characters)' % (
+                uid, c.get('cuts'), reply[:120], len(reply), exp_reply[:120], len(exp_reply))))
     return out
 
 
@@ -320,7 +329,8 @@ def new_uid(tag=''):
     return 'U%07d%05d' % (os.getpid() % 10 ** 7, next(_uid) % 10 ** 5)      # fixed width: frame lengths do not depend on it
 
 
-PAYLOADS = ['registered0', 'registered1', 'registered2', 'unregistered', 'non-hl7', 'broken-header', 'type-err', 'blank-line']
+PAYLOADS = ['registered0', 'registered1', 'registered2', 'unregistered', 'non-hl7', 'broken-header', 'type-err', 'blank-line', 'line-break-char']
+ODD = ['\n', '\x0c', '\x1d', '\x1e', '\x85', '\u2028', '\u2029']      # what str.splitlines() takes for line boundaries besides CR (not the MLLP bytes)
 
 
 def materialise(spec):
@@ -346,13 +356,19 @@ def make_client(kind, cuts=(), final_cr=True, fault=None, extra=(), nonascii=Fal
         # an empty line inside the frame and one at its end (what to_er7() of a message holding an empty group looks like)
         lines = make_message(TYPES[0], uid, extra).split('\r')
         text = '\r'.join(lines[:1] + [''] + lines[1:]) + '\r'
+    elif kind == 'line-break-char':
+        # a character that some text functions take for a line boundary, inside a header field before the message type
+        text = make_message(TYPES[1], uid, extra).replace('SND', 'S' + ODD[int(uid[-3:]) % len(ODD)] + 'ND', 1)
+    elif kind == 'big-reply':
+        text = make_message(TYPES[2], uid, list(extra) + ['NTE|1||BIGREPLY'])
     elif kind == 'non-hl7':
         text = 'INVALID MESSAGE %s' % uid
     else:
         text = 'MSH|^~\\&#|%s' % uid          # five delimiters, no MSH-12: not a parsable header
     if nonascii:
         text += '\rNTE|1||café 中'
-    kind = {'broken-header': 'non-hl7', 'type-err': 'unregistered', 'blank-line': 'registered0'}.get(kind, kind)
+    kind = {'broken-header': 'non-hl7', 'type-err': 'unregistered', 'blank-line': 'registered0', 'line-break-char': 'registered1',
+            'big-reply': 'registered2'}.get(kind, kind)
     return {'kind': kind, 'text': text, 'uid': uid, 'cuts': list(cuts), 'final_cr': final_cr,
             'fault': fault}
 
@@ -368,7 +384,7 @@ def drawn_cases(draw):
     n = draw(st.sampled_from([1, 1, 2, 3, 4, 6, 8]))
     specs = []
     for _ in range(n):
-        kind = draw(st.sampled_from(PAYLOADS + ['registered0', 'registered1']))
+        kind = draw(st.sampled_from(PAYLOADS + ['registered0', 'registered1'] + (['big-reply', 'big-reply'] if n == 1 else [])))
         extra = ['PID|1||%s' % ''.join(draw(st.lists(st.sampled_from('ABC123^~'), max_size=30)))] * draw(st.integers(0, 2))
         fault = None
         if draw(st.integers(0, 7)) == 0:
